@@ -15,6 +15,15 @@ CHECKS = {
         note="Trusted: TLC, the 150-line replay/record driver in harness/cmd/vh/ignoreset.go, positions >= 1 for markers.",
         technique="TLA+ model (IgnoreSet.tla) checked by TLC; exhaustive state replay into util.IgnoreSet + trace validation (IgnoreSetTrace.tla)",
         design="5/C16"),
+    "C19": dict(
+        text="TLC checks that the three-regime truncation model (ReadWindow, Truncate, PlaceCaret) satisfies the property (caret over the "
+             "reported byte, bounded length, context window, degradation) for every line length 0..3L and column at small L, with "
+             "termination; at the real limit L=200 every terminal state (quick: all regime boundaries +-3; thorough: all 181k (len,col) pairs) "
+             "is executed through the public reporting.Reporter with ascii / tab / multi-byte line contents and the rendered window, ellipses "
+             "and caret are compared with the model.",
+        note="Trusted: TLC, the message parser in harness/cmd/vh/excerpt.go; columns are byte offsets.",
+        technique="TLA+ model (Excerpt.tla) checked by TLC; exhaustive replay of model states into reporting.Reporter",
+        design="5/C19"),
 }
 
 NOT_YET = "check not built yet in this session; the property is in scope of the TLA+ specification (see DESIGN.md section 5) and will be claimed when its replay binding is in place"
